@@ -198,9 +198,10 @@ CHECKS["C17"] = dict(
           dict(pkg="chk", harness="VfC17_hasResultsCache", reach=["end"], bounds="as hasResult; compared with the specification of the plain checker"),
           dict(pkg="chk", harness="VfC17_hasResultsCache2", reach=["end"], bounds="TWO wanted results of independent shapes (with / without details, any kind, symbolic ids / keys) against 0-1 results, all option combinations: passes iff every want is present, each judged by its own fields"),
           dict(pkg="chk", harness="VfC17_getResponseHasEntries", reach=["end"], bounds="Get response of 0-2 entries (5 kinds, symbolic key and network instance) and one wanted entry built with the fluent API"),
+          dict(pkg="chk", harness="VfC17_getResponseLong", reach=["end"], bounds="Get response of FOUR next-hop entries over two network instances in every order (grouped / interleaved / revisited), symbolic indices; one wanted next-hop"),
           dict(pkg="chk", harness="VfC17_errorCounts", reach=["end"], bounds="error nil / ClientErr with 0-2 send and receive errors / other error; wanted count 0-3"),
-          dict(pkg="chk", harness="VfC17_recvStatus", reach=["end"], thorough=dict(skip=True), bounds="ClientErr with 0-1 receive error (plain error or status with one of 3 codes, 2 messages, optional details with 2 reasons) or a non-client error; wanted status likewise; AllowUnimplemented x IgnoreDetails"),
-          dict(pkg="chk", harness="VfC17_recvStatusT", reach=["end"], quick=dict(skip=True), bounds="as recvStatus with 0-2 receive errors, 4 codes, 3 messages, 3 reasons")],
+          dict(pkg="chk", harness="VfC17_recvStatus", reach=["end"], thorough=dict(skip=True), bounds="ClientErr with 0-1 receive error (plain error or status with one of 3 codes incl. Unknown, 2 messages, optional details with 2 reasons) or a non-client error; wanted status likewise; AllowUnimplemented x IgnoreDetails"),
+          dict(pkg="chk", harness="VfC17_recvStatusT", reach=["end"], quick=dict(skip=True), bounds="as recvStatus with 0-2 receive errors, 5 codes, 3 messages, 3 reasons")],
     assumptions=["cmp.Equal + cmpopts.IgnoreFields + protocmp.Transform are modelled as typed structural equality skipping the ignored fields",
                  "grpc status values are modelled as {code, message, details}; keys in Get responses are non-zero / non-empty"],
     level_text="Bounded symbolic execution of the real checkers with a capturing testing.TB: 'fails iff the wanted item is absent' is decided for all symbolic ids/keys/instances/options.",
